@@ -23,7 +23,7 @@ def load_known(prop):
 
 
 def _write_replay(prop, tag, cex):
-    d = os.path.join(ROOT, "evidence", "replays")
+    d = os.path.join(os.environ.get("VERIF_EVIDENCE_DIR") or os.path.join(ROOT, "evidence"), "replays")
     os.makedirs(d, exist_ok=True)
     tag = "".join(c if c.isalnum() or c in "-_." else "_" for c in tag)
     path = os.path.join(d, "%s-%s.json" % (prop, tag))
